@@ -1169,3 +1169,65 @@ Proof.
 Qed.
 
 End Proofs.
+
+(* ---------- non-vacuity: a 6x5 candle, three overlapping stages and a default ---------- *)
+
+Module Candle.
+  (* raw unit mode: colours are four integers, conversion is the identity, standardising clamps *)
+  Definition colour := (Z * Z * Z * Z)%type.
+  Definition clamp (c : colour) : colour :=
+    let '(a, b, c', d) := c in (clamp16 a, clamp16 b, clamp16 c', clamp16 d).
+  Definition conv_id (m : mode) (c : colour) : colour := c.
+  Definition switch_id (a b : mode) (c : colour) : colour := c.
+  Definition black : colour := (0, 0, 0, 0).
+
+  Definition dflt : colour := (1000, 2000, 3000, 2700).
+  Definition c1 : colour := (10000, 2000, 3000, 2700).
+  Definition c2 : colour := (20000, 2000, 3000, 2700).
+  Definition c3 : colour := (30000, 70000, -5, 2700).     (* clamped on the wire *)
+  Definition rg (a b : Z) := Some (mkClause (NInt a) (Some (NInt b))).
+  Definition one (a : num) := Some (mkClause a None).
+
+  (* stage row 1 2 column 1 2 ; stage column 2 4 row 2 4 ; stage row {9 / 2}   (4.5 -> row 4) *)
+  Definition stages : list (stage colour) :=
+    [mkStage (rg 1 2) (rg 1 2) false c1; mkStage (rg 2 4) (rg 2 4) true c2; mkStage (one (NFlt 9 2)) None false c3].
+  Definition prog : list (stmt colour) :=
+    [SUnits Raw; SDefault dflt; SBlock 7 6 5 stages; SZone 3 c1 (NInt 2) (Some (NInt 5)); SZone 3 c2 (NFlt 4 2) None].
+
+  Example prog_in_domain : forallb (stmt_ok colour) prog = true.
+  Proof. reflexivity. Qed.
+
+  Definition d := clamp dflt.
+  Definition x1 := clamp c1.
+  Definition x2 := clamp c2.
+  Definition x3 := clamp c3.
+
+  Example candle_run :
+    let '(st, ok) := run colour clamp conv_id switch_id black (compile colour prog) (initial black) in
+    ok = true /\
+    out st =
+      [EMatrix 7 6 5 (map Some [d;  d;  d;  d;  d;
+                                d;  x1; x1; d;  d;
+                                d;  x1; x2; x2; x2;
+                                d;  d;  x2; x2; x2;
+                                x3; x3; x3; x3; x3;
+                                d;  d;  d;  d;  d]);
+       EZone 3 2 6 x1;
+       EZone 3 2 3 x2].
+  Proof. vm_compute. split; reflexivity. Qed.
+
+  Example x3_clamped : x3 = (30000, 65535, 0, 2700).
+  Proof. reflexivity. Qed.
+
+  (* the hypotheses of the out-of-domain theorems are satisfiable, too *)
+  Example row_6_aborts :
+    snd (run colour clamp conv_id switch_id black
+           (compile colour [SBlock 7 6 5 [mkStage (one (NInt 6)) None false c1]]) (initial black)) = false.
+  Proof. vm_compute. reflexivity. Qed.
+
+  Example row_minus_1_is_row_5 :
+    out (fst (run colour clamp conv_id switch_id black
+           (compile colour [SUnits Raw; SBlock 7 6 5 [mkStage (one (NInt (-1))) (rg 0 0) false c1]]) (initial black)))
+    = [EMatrix 7 6 5 (map Some (map (fun _ => black) (zrange 0 25) ++ [x1; black; black; black; black]))].
+  Proof. vm_compute. reflexivity. Qed.
+End Candle.
